@@ -82,6 +82,9 @@ pub fn types() -> Vec<TypeSpec> {
         ty!(Own16a, own),  // 13
         ty!(OwnZ4, own),   // 14
         ty!(Own1, own),    // 15 (size 2, align 1)
+        ty!(Own20, own),   // 16 (20/4)
+        ty!(Own33, own),   // 17 (33/1)
+        ty!(Pod20, copy),  // 18 (20/4)
     ]
 }
 
@@ -741,6 +744,19 @@ pub fn lifetimes() -> Vec<DefSpec> {
     out
 }
 
+/// Values bigger than 16 bytes whose size is not a multiple of 8 (a store or load done word by
+/// word loses their tail): stored by the constructors and by the conversions, next to small data.
+pub fn big() -> Vec<DefSpec> {
+    let f = false;
+    let t = true;
+    let z: Vec<Vec<DStep>> = vec![
+        vec![step(&[], &[("Own20", f), ("Pod20", t), ("Own33", f)], 0), step(&[0], &[("Pod4", t)], 0)],
+        vec![step(&[], &[("Pod8", t), ("Own8", f)], 0), step(&[0, 1], &[("Own20", f)], 0), step(&[], &[("Own33", f), ("Pod20", t)], 1)],
+        vec![step(&[], &[("Pod1", t), ("Pod20", t)], 2), step(&[1], &[("Own33", f), ("Pod20", f)], 0)],
+    ];
+    z.into_iter().enumerate().map(|(i, steps)| DefSpec { name: format!("big{}", i), steps, reuse_names: false }).collect()
+}
+
 /// The reduced family interpreted by Miri: every instrumented type, re-used bytes, a re-used
 /// name, zero-size data, odd sizes, an over-aligned type, a ghost, three strategies.
 pub fn miri_family() -> Vec<DefSpec> {
@@ -749,6 +765,7 @@ pub fn miri_family() -> Vec<DefSpec> {
     let mut v: Vec<DefSpec> = keep.iter().filter_map(|i| z.get(*i).cloned()).collect();
     v.push(z[z.len() - 4].clone()); // first ghost definition
     v.push(z[z.len() - 2].clone()); // ghost removed late
+    v.push(big().remove(1));
     v
 }
 
@@ -758,6 +775,7 @@ pub fn family(tier: &str) -> Vec<DefSpec> {
     }
     let mut v = zoo();
     v.extend(lifetimes());
+    v.extend(big());
     // a 4-aligned plain type that may stay uninitialised, an 8-aligned droppable type (padding
     // gaps, hence zero-size data sharing an offset with a sized datum) and a droppable zero-size type
     let a3 = [(type_index("Pod4"), true), (type_index("OwnBox"), false), (type_index("OwnZ"), false)];
